@@ -239,9 +239,9 @@ pub struct Effect {
     pub insert: Vec<Row>,
     pub overwrite: Option<(TableSchema, Vec<Row>)>,
     pub add_col: Option<(ColSpec, BTreeMap<i64, Val>)>,
-    pub drop_col: Option<String>,
-    pub rename: Option<(String, String)>,
-    pub set_nullable: Option<(String, bool)>,
+    pub drop_col: Option<u32>,
+    pub rename: Option<(u32, String)>,
+    pub set_nullable: Option<(u32, bool)>,
     pub config_set: BTreeMap<String, Option<String>>,
     pub index_add: Option<(String, String)>,
     pub index_drop: Option<String>,
@@ -281,7 +281,7 @@ pub fn apply_effect(base: &VersionState, e: &Effect, versions: &BTreeMap<u64, Ve
             if let Some(newvals) = e.update.get(&r.uid) {
                 let mut nr = r.clone();
                 for (i, c) in e.read_schema.cols.iter().enumerate() {
-                    if let Some((j, _)) = s.schema.col(&c.name) {
+                    if let Some((j, _)) = s.schema.col_by_cid(c.cid) {
                         nr.vals[j] = newvals[i].clone();
                     }
                 }
@@ -298,7 +298,7 @@ pub fn apply_effect(base: &VersionState, e: &Effect, versions: &BTreeMap<u64, Ve
         for r in &e.insert {
             let mut vals = vec![Val::Null; s.schema.cols.len()];
             for (i, c) in e.read_schema.cols.iter().enumerate() {
-                if let Some((j, _)) = s.schema.col(&c.name) {
+                if let Some((j, _)) = s.schema.col_by_cid(c.cid) {
                     vals[j] = r.vals[i].clone();
                 }
             }
@@ -314,25 +314,27 @@ pub fn apply_effect(base: &VersionState, e: &Effect, versions: &BTreeMap<u64, Ve
             r.vals.push(values.get(&r.uid).cloned().unwrap_or(Val::Null));
         }
     }
-    if let Some(name) = &e.drop_col {
-        let Some((i, _)) = s.schema.col(name) else { return Err(format!("dropped column {name} does not exist")) };
+    if let Some(cid) = &e.drop_col {
+        let Some((i, c)) = s.schema.col_by_cid(*cid) else { return Err(format!("dropped column (cid {cid}) does not exist")) };
+        let name = c.name.clone();
         s.schema.cols.remove(i);
         for r in &mut s.rows {
             r.vals.remove(i);
         }
-        s.indices.retain(|_, c| c != name);
+        s.indices.retain(|_, c| *c != name);
     }
-    if let Some((from, to)) = &e.rename {
-        let Some((i, _)) = s.schema.col(from) else { return Err(format!("renamed column {from} does not exist")) };
+    if let Some((cid, to)) = &e.rename {
+        let Some((i, c)) = s.schema.col_by_cid(*cid) else { return Err(format!("renamed column (cid {cid}) does not exist")) };
+        let from = c.name.clone();
         s.schema.cols[i].name = to.clone();
         for c in s.indices.values_mut() {
-            if c == from {
+            if *c == from {
                 *c = to.clone();
             }
         }
     }
-    if let Some((name, nullable)) = &e.set_nullable {
-        let Some((i, _)) = s.schema.col(name) else { return Err(format!("altered column {name} does not exist")) };
+    if let Some((cid, nullable)) = &e.set_nullable {
+        let Some((i, _)) = s.schema.col_by_cid(*cid) else { return Err(format!("altered column (cid {cid}) does not exist")) };
         s.schema.cols[i].nullable = *nullable;
     }
     for (k, v) in &e.config_set {
@@ -352,7 +354,7 @@ pub fn apply_effect(base: &VersionState, e: &Effect, versions: &BTreeMap<u64, Ve
         s.indices.remove(name);
     }
     if e.reorders {
-        s.ordered = s.ordered && true;
+        s.ordered = false;
     }
     Ok(s)
 }
@@ -470,6 +472,10 @@ pub struct World {
     /// kinds of the ops applied so far (for classification)
     pub history: Vec<String>,
     pub rebased_commits: u32,
+    /// allow scalar indices on nullable columns (C19 / C12 only)
+    pub index_nullable_cols: bool,
+    /// generate stale row writes racing a non-nullable column add (C03 only)
+    pub allow_nonnull_add_race: bool,
 }
 
 pub enum StepOutcome {
@@ -547,7 +553,7 @@ impl World {
                 .cols
                 .iter()
                 .enumerate()
-                .map(|(i, (t, n))| ColSpec { name: format!("c{i}"), ty: ColType::ALL[*t as usize % ColType::ALL.len()], nullable: *n })
+                .map(|(i, (t, n))| ColSpec { name: format!("c{i}"), ty: ColType::ALL[*t as usize % ColType::ALL.len()], nullable: *n, cid: i as u32 + 1 })
                 .collect(),
         }
     }
@@ -576,9 +582,11 @@ impl World {
             latest: 0,
             next_uid: rows.len() as i64,
             tags: BTreeMap::new(),
-            col_counter: cfg.cols.len() as u32,
+            col_counter: cfg.cols.len() as u32 + 1,
             history: vec!["create".into()],
             rebased_commits: 0,
+            index_nullable_cols: false,
+            allow_nonnull_add_race: false,
         };
         w.versions.insert(v, VersionState { schema, rows, ordered: true, config: BTreeMap::new(), indices: BTreeMap::new() });
         w.latest = v;
@@ -629,8 +637,21 @@ impl World {
         };
         let at = self.versions[&read_version].clone();
         let before_latest = self.latest;
+        if stale && !self.allow_nonnull_add_race && matches!(step.op, Op::Append { .. } | Op::Update { .. }) {
+            // Known finding C03-append-vs-nonnull-add: rows written at an older schema lack a
+            // concurrently added non-nullable column and the table becomes unreadable.  Other
+            // properties exclude exactly this shape; C03 reports it.
+            let latest_schema = &self.versions[&self.latest].schema;
+            if latest_schema.cols.iter().any(|c| !c.nullable && at.schema.col(&c.name).is_none()) {
+                obs.label("excluded:stale-write-vs-nonnull-add");
+                return Ok(StepOutcome::NoOp);
+            }
+        }
 
         let (res, effect) = self.run_op(&step.op, &mut handle, &at, stale, obs).await?;
+        if std::env::var("VERIF_TRACE").is_ok() {
+            eprintln!("[trace] {} stale={stale} read_version={read_version} latest={} -> {:?} effect={}", step.op.kind(), self.latest, res, effect.as_ref().map(|e| e.kind).unwrap_or("-"));
+        }
         let effect = match effect {
             Some(e) => e,
             None => return Ok(StepOutcome::NoOp),
@@ -642,6 +663,17 @@ impl World {
                 self.refresh().await?;
                 let now = self.ds.version().version;
                 if now != before_latest {
+                    if effect.kind == "compact" {
+                        // a failed compaction may have published fragment-reservation versions;
+                        // their contents must equal the pre-state (checked by the caller's verify)
+                        let base = self.versions[&before_latest].clone();
+                        for v in (before_latest + 1)..=now {
+                            self.versions.insert(v, base.clone());
+                        }
+                        self.latest = now;
+                        obs.label("failed-compaction-left-reservation-versions");
+                        return Ok(StepOutcome::Rejected(msg));
+                    }
                     return Err(Failure::new("failed-op-changed-table", format!("{} returned Err({msg}) but latest moved {before_latest} -> {now}", step.op.kind())));
                 }
                 Ok(StepOutcome::Rejected(msg))
@@ -737,7 +769,15 @@ impl World {
                     }
                     let spec = at.schema.cols[i].clone();
                     let (sql, f): (String, Box<dyn Fn(&Row) -> Val>) = match s {
-                        RawSet::AddInt(k) if spec.ty.is_int() && !matches!(spec.ty, ColType::Date32 | ColType::TsUs) => {
+                        RawSet::AddInt(k)
+                            if spec.ty.is_int()
+                                && !matches!(spec.ty, ColType::Date32 | ColType::TsUs)
+                                && at.rows.iter().all(|r| match (&r.vals[i], spec.ty.int_range()) {
+                                    // arithmetic overflow is outside the property's domain: only generated when no row can overflow
+                                    (Val::I(x), Some((lo, hi))) => *x + (*k as i128) >= lo && *x + (*k as i128) <= hi,
+                                    _ => true,
+                                }) =>
+                        {
                             let k = *k as i128;
                             let (lo, hi) = spec.ty.int_range().unwrap();
                             let name = spec.name.clone();
@@ -831,7 +871,8 @@ impl World {
             }
             Op::Compact { target_rows, materialize, threshold_pct, defer_remap, max_rows_per_group } => {
                 e.kind = "compact";
-                e.reorders = false;
+                // the rewritten rows get new, higher fragment ids: physical order changes
+                e.reorders = true;
                 let opts = CompactionOptions {
                     target_rows_per_fragment: *target_rows as usize,
                     max_rows_per_group: *max_rows_per_group as usize,
@@ -849,7 +890,13 @@ impl World {
                 if at.schema.cols.is_empty() {
                     return Ok((Ok(()), None));
                 }
-                let c = &at.schema.cols[*col as usize % at.schema.cols.len()];
+                let n = at.schema.cols.len();
+                let start = *col as usize % n;
+                // NULL handling of indexed predicates is C19's subject: elsewhere only non-nullable columns are indexed
+                let Some(c) = (0..n).map(|k| &at.schema.cols[(start + k) % n]).find(|c| self.index_nullable_cols || !c.nullable) else {
+                    obs.label("create-index-skipped-nullable");
+                    return Ok((Ok(()), None));
+                };
                 let name = format!("{}_idx", c.name);
                 let params = match kind % 2 {
                     0 => ScalarIndexParams::for_builtin(lance_index::scalar::BuiltinIndexType::BTree),
@@ -888,7 +935,7 @@ impl World {
                     0 => {
                         // all nulls
                         let t = ColType::ALL[*ty as usize % ColType::ALL.len()];
-                        let spec = ColSpec { name: name.clone(), ty: t, nullable: true };
+                        let spec = ColSpec { name: name.clone(), ty: t, nullable: true, cid: self.col_counter };
                         let schema = Arc::new(arrow_schema::Schema::new(vec![arrow_schema::Field::new(&name, t.arrow(), true)]));
                         let r = h.add_columns(NewColumnTransform::AllNulls(schema), None, None).await.map_err(lerr);
                         e.add_col = Some((spec, BTreeMap::new()));
@@ -898,7 +945,7 @@ impl World {
                         // copy of an existing column via SQL
                         let j = *src as usize % at.schema.cols.len();
                         let s = at.schema.cols[j].clone();
-                        let spec = ColSpec { name: name.clone(), ty: s.ty, nullable: true };
+                        let spec = ColSpec { name: name.clone(), ty: s.ty, nullable: s.nullable, cid: self.col_counter };
                         let vals: BTreeMap<i64, Val> = at.rows.iter().map(|r| (r.uid, r.vals[j].clone())).collect();
                         let r = h.add_columns(NewColumnTransform::SqlExpressions(vec![(name.clone(), quote_ident(&s.name))]), None, None).await.map_err(lerr);
                         e.add_col = Some((spec, vals));
@@ -907,7 +954,7 @@ impl World {
                     _ => {
                         // literal expression over uid: uid + k  (Int64)
                         let k = (*lit % 5) as i128;
-                        let spec = ColSpec { name: name.clone(), ty: ColType::I64, nullable: true };
+                        let spec = ColSpec { name: name.clone(), ty: ColType::I64, nullable: false, cid: self.col_counter };
                         let vals: BTreeMap<i64, Val> = at.rows.iter().map(|r| (r.uid, Val::I(r.uid as i128 + k))).collect();
                         let r = h.add_columns(NewColumnTransform::SqlExpressions(vec![(name.clone(), format!("uid + {k}"))]), None, None).await.map_err(lerr);
                         e.add_col = Some((spec, vals));
@@ -920,9 +967,9 @@ impl World {
                 if at.schema.cols.len() <= 1 {
                     return Ok((Ok(()), None));
                 }
-                let c = at.schema.cols[*col as usize % at.schema.cols.len()].name.clone();
-                let r = h.drop_columns(&[c.as_str()]).await.map_err(lerr);
-                e.drop_col = Some(c);
+                let c = at.schema.cols[*col as usize % at.schema.cols.len()].clone();
+                let r = h.drop_columns(&[c.name.as_str()]).await.map_err(lerr);
+                e.drop_col = Some(c.cid);
                 Ok((r, Some(e)))
             }
             Op::AlterColumn { col, action } => {
@@ -936,7 +983,7 @@ impl World {
                         self.col_counter += 1;
                         let to = format!("r{}", self.col_counter);
                         let r = h.alter_columns(&[ColumnAlteration::new(c.name.clone()).rename(to.clone())]).await.map_err(lerr);
-                        e.rename = Some((c.name, to));
+                        e.rename = Some((c.cid, to));
                         Ok((r, Some(e)))
                     }
                     1 => {
@@ -945,7 +992,7 @@ impl World {
                             return Ok((Ok(()), None));
                         }
                         let r = h.alter_columns(&[ColumnAlteration::new(c.name.clone()).set_nullable(true)]).await.map_err(lerr);
-                        e.set_nullable = Some((c.name, true));
+                        e.set_nullable = Some((c.cid, true));
                         Ok((r, Some(e)))
                     }
                     _ => {
@@ -959,7 +1006,7 @@ impl World {
                         if r.is_ok() && has_null {
                             obs.label("alter-non-nullable-with-nulls-accepted");
                         }
-                        e.set_nullable = Some((c.name, false));
+                        e.set_nullable = Some((c.cid, false));
                         Ok((r, Some(e)))
                     }
                 }
